@@ -363,6 +363,15 @@ def r5_sources(ctx: Context) -> None:
                           f"`{src(c)[:60]}`: the frozen distribution's random_state is not set to self.random_generator (it would use numpy's global state)", f, c)
             if isinstance(c.func, ast.Attribute) and c.func.attr in ("integers", "random", "choice", "normal", "uniform", "shuffle", "permutation", "standard_normal") and not q.startswith(("numpy.random.", "random.")):
                 recv = src(c.func.value)
+                if isinstance(c.func.value, ast.Name):
+                    # a local alias `generator = self.random_generator` (bound once) is the object's own generator
+                    from ..poly import single_assignment_env
+                    alias = single_assignment_env(f.node).get(c.func.value.id)
+                    if alias is not None and src(alias) == f"{f.self_name}.random_generator":
+                        recv = "self.random_generator"
+                    elif alias is None:
+                        # free variable of a local closure: look in the enclosing function
+                        outer = getattr(f, "parent", None)
                 ok = recv in ("self.random_generator", "random_generator", "self._BaseSeedable__random_generator", "self.__random_generator") or f.name == "get_random_seed"
                 if "random" in recv or "rng" in recv or "generator" in recv:
                     ctx.check(ok, "R5.own-generator", f"{f.qualname.split(':')[1]}:{recv}.{c.func.attr}", "draws come from the object's own generator",
